@@ -440,6 +440,13 @@ func c14Run(run *ev.Run, srv *svc.Server, c c14Case) {
 	sd := &scripted{cs: cs, kind: c.kind, callID: call.ID, ctx: ctx, cancel: cancel, timeout: 15 * time.Second, handlerDone: call.Log.Finished}
 	cr := sd.run(c.client.ops)
 	run.Count("cases", 1)
+	if cr.Slow {
+		// an operation needed longer than its watchdog but did return: the
+		// machine is too slow to time this case (recorded as inconclusive)
+		call.ReleaseNow()
+		cancel()
+		return
+	}
 	inj := "none"
 	if len(c.inject) > 0 {
 		inj = strings.Join(c.inject, "+")
@@ -720,8 +727,13 @@ func c14ReadLimit(run *ev.Run, srv *svc.Server) {
 				cs := srv.Clients(true, append(svc.ProtoOpts(p, "proto"), connect.WithReadMaxBytes(100))...)
 				defer cs.Tap.Forget(call.ID)
 				ctx, cancel := context.WithCancel(context.Background())
-				sd := &scripted{cs: cs, kind: f.kind, callID: call.ID, ctx: ctx, cancel: cancel, timeout: 15 * time.Second, handlerDone: call.Log.Finished}
+				sd := &scripted{cs: cs, kind: f.kind, callID: call.ID, ctx: ctx, cancel: cancel, timeout: 15 * time.Second, handlerDone: call.Log.Finished, noGrace: run.KnownOpen(key + "/hang")}
 				cr := sd.run(f.ops)
+				if cr.Slow {
+					cancel()
+					call.ReleaseNow()
+					return
+				}
 				if cr.Hung {
 					defer cancel()
 				} else {
